@@ -1,6 +1,7 @@
 """C19 - translating symbolic expressions preserves their value."""
 import random
 import zlib
+from fractions import Fraction
 
 import mpmath
 
@@ -9,7 +10,8 @@ LEVEL = "exploration"
 TECHNIQUE = (
     "runtime monitoring: post-condition oracles on the hooked converters (value of the input expression vs "
     "value of the produced tree under an independent 40-digit interpreter, at several symbol assignments) and "
-    "on the hooked sort keys (independent tokeniser/comparator)"
+    "on the hooked sort keys (independent tokeniser/comparator); expressions over symbols and integers are also "
+    "valued with exact rational arithmetic at integer assignments (no tolerance, no magnitude limit)"
 )
 LEVEL_NOTE = (
     "trusted: mpmath arithmetic at 40 digits and a ~150-line interpreter of sympy trees / neutral trees; "
@@ -25,11 +27,15 @@ RULE = (
     "two symbols, one node on top, or a symbol that prints like it; their trees - also equal trees that are distinct "
     "objects - are translated in random order with 1-3 other dialects (numeric evaluation at fixed symbol values, "
     "printer, variants of the sympy dialect that share two of its three parts, with the same / one more / one fewer "
-    "function name) and with the sympy dialect, each at least once after other translations); leaves: symbols "
-    "(names with digit groups, names shadowing sympy constants, with assumptions), integers incl. 10**20, floats, "
-    "rationals, I. Non-trivial: >=6 nodes, >=1 symbol and a subtraction/division/reciprocal/half-power shape "
+    "function name) and with the sympy dialect, each at least once after other translations / integers: trees over "
+    "symbols and integers (+, -, *, integer and symbolic powers, division by symbolic denominators; evaluated and "
+    "evaluate=False; alone, as a tuple, or below an inexact node) whose integers lie around and beyond 2**31, 2**53, "
+    "2**63, 2**64, 2**128, 1e308 (2**k+-d, 10**k+d, 3**k, random odd n-bit)); leaves: symbols "
+    "(names with digit groups, names shadowing sympy constants, with assumptions), integers incl. 10**20, 2**53+1, "
+    "2**64+1, floats, rationals, I. Non-trivial: >=6 nodes, >=1 symbol and a subtraction/division/reciprocal/half-power shape "
     "(trees); an unsupported node below the root (unsupported); >=3 names whose integers differ in digit count "
-    "(keys). distinct = distinct canonical case strings"
+    "(keys; an embedded integer >= 2**53 comes with a neighbour at distance 1-2); an integer that is not exactly a "
+    "double and >=1 symbol (integers). distinct = distinct canonical case strings"
 )
 ASSUMPTIONS = [
     "value comparison at 5 real assignments per case (positive, negative, small mixed, large mixed, moderate mixed), "
@@ -53,6 +59,17 @@ ASSUMPTIONS = [
     "unevaluated radical tree by -1; str() of the same tree fails too) is the environment, not a refusal: no verdict",
     "a supported tree that is undefined at every assignment (e.g. a literal division by zero built with "
     "evaluate=False) may be refused",
+    "exact values: an input over Symbol, Integer, Add, Mul, Pow (neutral tree: int, Symbol, add/mul/sub/div/pow) whose "
+    "exponents take integer values has an exact rational value at integer symbol values (3 assignments: small "
+    "positive, small negative, two-digit mixed); what a translation makes of it must have exactly that value. Outside "
+    "this class (no exact verdict): any Float / non-integer Rational / I leaf or function in the input; a symbol-free "
+    "division or negative power (Python or sympy evaluates it in floating point / to a rational that becomes a float); "
+    "an input x + (-1)*y whose evaluated negation `y_term * (-1)` contains such a node (the library converts the "
+    "subtrahend from that product; on evaluate=False trees sympy then produces rationals, 1/(3*z) -> Rational(1, 3)/z); "
+    "a result with a float that has a fractional part (what a rational became); powers beyond 200000 bits. A float "
+    "with an integer value in a result counts with its exact value (2.0 for 2 is the same number, 2.0**53 for 2**53+1 "
+    "is not)",
+    "an integer-only input that has an exact value may not be refused, however large the integer (10**400)",
     "histories: only what the sympy dialect returns is judged (against the sympy expression the tree was made from "
     "and, by the hook, against the tree); translations with any other dialect are history, their results and "
     "exceptions are not judged",
@@ -62,9 +79,9 @@ ASSUMPTIONS = [
 DECIDING = [
     "expression_from_sympy", "translate_expression", "translate_tuple", "natural_key", "natural_key_revlex",
     "roundtrip-value", "supported-not-refused", "unsupported-refused", "tuple-roundtrip", "key-sort",
-    "history-value",
+    "history-value", "exact-integer-value",
 ]
-BUDGET = {"quick": (4, 35, 800), "thorough": (16, 200, 10000)}
+BUDGET = {"quick": (4, 38, 900), "thorough": (16, 200, 10000)}
 MIN_EVALS = {"quick": 400, "thorough": 2000}
 CASE_TIMEOUT = {"quick": 10, "thorough": 20}
 
@@ -80,7 +97,7 @@ _LIB = {}
 
 
 def classes(tier):
-    return ["special", "random", "unevaluated", "numeric", "unsupported", "tuple", "keys", "history"]
+    return ["special", "random", "unevaluated", "numeric", "unsupported", "tuple", "keys", "history", "integers"]
 
 
 # ============================================================================ reference interpreter
@@ -435,6 +452,236 @@ def _names_of(obj):
         return out
 
 
+# ---------------------------------------------------------------------------- exact integer arithmetic
+# Integers are the one kind of number the neutral tree carries without loss (Python int <-> sympy Integer),
+# so an expression over symbols and integers with +, -, *, integer powers and division by symbolic
+# denominators has, at integer symbol values, an exact rational value that both translations must keep
+# exactly: no tolerance, no magnitude limit (2**53+1, 2**64+1, 10**400 are ordinary integers).
+class Inexact(Exception):
+    """the object is outside the class whose values are exact"""
+
+
+X_BITS = 200000  # exact powers are computed up to this many bits
+N_XASSIGN = 3
+
+
+def xvalue_for(name, k):
+    """integer value of symbol ``name`` in exact assignment k (never zero)"""
+    h = zlib.crc32(f"{_SALT}:x{k}:{name}".encode())
+    sgn = -1 if (h >> 24) & 1 else 1
+    if k == 0:
+        v = 1 + h % 7
+    elif k == 1:
+        v = -(1 + h % 9)
+    else:
+        v = sgn * (11 + h % 90)
+    if name in _POS:
+        v = abs(v)
+    return Fraction(v)
+
+
+def _xbits(q):
+    return q.numerator.bit_length() + q.denominator.bit_length()
+
+
+def _xpow(b, w):
+    if w.denominator != 1:
+        raise Inexact("fractional exponent")
+    n = w.numerator
+    if n == 0:
+        return Fraction(1)
+    if b == 0:
+        if n < 0:
+            raise Skip("division by zero")
+        return Fraction(0)
+    if abs(n) * _xbits(b) > X_BITS:
+        raise Skip("power too large")
+    return b ** n
+
+
+def _xdiv(a, b):
+    if b == 0:
+        raise Skip("division by zero")
+    return a / b
+
+
+def _xnumber(x, strict):
+    if isinstance(x, bool):
+        raise Inexact("bool")
+    if isinstance(x, int):
+        return Fraction(x)
+    if strict:
+        raise Inexact(type(x).__name__)  # floats (and what rationals become) are rounded legitimately
+    if isinstance(x, complex) and x.imag == 0:
+        x = x.real
+    if isinstance(x, float) and x == x and x not in (float("inf"), float("-inf")) and x == int(x):
+        return Fraction(x)  # the exact value of the double
+    # a float with a fractional part in a result is what a rational became (sympy can produce rationals when it
+    # evaluates integer sub-trees, e.g. 1/(3*x) -> Rational(1, 3)/x): the accepted loss, no exact value
+    raise Inexact(type(x).__name__)
+
+
+def ex_sympy(e, env, strict):
+    """(exact value, contains a symbol) of a sympy tree / Python number.  strict (the object is the INPUT of a
+    translation): Float / non-integer Rational / I leaves, functions and symbol-free sub-trees with a
+    division or negative power (the library or sympy evaluates those in floating point, the accepted loss)
+    raise Inexact.  Not strict (the object is a RESULT): every finite real leaf counts with its exact value"""
+    import sympy as S
+
+    if isinstance(e, (int, float, complex)):
+        return _xnumber(e, strict), False
+    if isinstance(e, S.Symbol):
+        return env(e.name), True
+    if isinstance(e, S.Integer):
+        return Fraction(int(e)), False
+    if isinstance(e, S.Rational):
+        if strict:
+            raise Inexact("Rational")
+        return Fraction(int(e.p), int(e.q)), False
+    if isinstance(e, S.Float):
+        if strict:
+            raise Inexact("Float")
+        try:
+            p, q = mpmath.libmp.to_rational(e._mpf_)
+        except Exception:
+            raise Inexact("Float")
+        if int(q) != 1:
+            raise Inexact("Float")  # see _xnumber
+        return Fraction(int(p)), False
+    if isinstance(e, (S.Add, S.Mul)):
+        if strict and isinstance(e, S.Add) and len(e.args) == 2 and isinstance(e.args[1], S.Mul) \
+                and e.args[1].args and e.args[1].args[0] == -1:
+            # x + (-1)*y: the library converts the subtrahend from `y_term * (-1)`, which sympy evaluates; on a tree
+            # built with evaluate=False that can produce rationals (-(1/(3*z)) * (-1) -> Rational(1, 3)/z) which
+            # legitimately become floats: the input is exact only if that product is (its value is not used)
+            try:
+                negated = e.args[1] * (-1)
+            except Exception:
+                raise Inexact("negation fails inside sympy")
+            ex_sympy(negated, env, True)
+        acc, sym = Fraction(0 if isinstance(e, S.Add) else 1), False
+        for a in e.args:
+            v, s = ex_sympy(a, env, strict)
+            acc = acc + v if isinstance(e, S.Add) else acc * v
+            sym = sym or s
+        return acc, sym
+    if isinstance(e, S.Pow):
+        (b, sb), (w, sw) = ex_sympy(e.args[0], env, strict), ex_sympy(e.args[1], env, strict)
+        if strict and w < 0 and not (sb or sw):
+            raise Inexact("numeric negative power")
+        return _xpow(b, w), sb or sw
+    raise Inexact(type(e).__name__)
+
+
+def ex_native(t, env, strict):
+    """the same for a neutral tree"""
+    if isinstance(t, (int, float, complex)):
+        return _xnumber(t, strict), False
+    tn = type(t).__name__
+    if tn == "Symbol" and isinstance(t, tuple):
+        return env(t.name), True
+    if tn == "FunctionCall" and isinstance(t, tuple):
+        name = t.name
+        args = [ex_native(a, env, strict) for a in t.args]
+        sym = any(s for _, s in args)
+        vals = [v for v, _ in args]
+        if name in ("add", "mul") and vals:
+            acc = vals[0]
+            for v in vals[1:]:
+                acc = acc + v if name == "add" else acc * v
+            return acc, sym
+        if name == "sub" and len(vals) == 2:
+            return vals[0] - vals[1], sym
+        if name == "div" and len(vals) == 2:
+            if strict and not sym:
+                raise Inexact("numeric division")
+            return _xdiv(vals[0], vals[1]), sym
+        if name == "pow" and len(vals) == 2:
+            if strict and vals[1] < 0 and not sym:
+                raise Inexact("numeric negative power")
+            return _xpow(vals[0], vals[1]), sym
+        raise Inexact(name)
+    if tn in ("Symbol", "FunctionCall"):
+        raise Inexact(tn)
+    return ex_sympy(t, env, strict)  # sympy numbers passed through unchanged
+
+
+def exact_reference(eval_fn, obj):
+    """per exact assignment ('ok', Fraction) | ('skip', why); raises Inexact when ``obj`` (an input) is
+    outside the exact class"""
+    key = ("exact", eval_fn.__name__, id(obj), frozenset(_POS))
+    hit = _REF_MEMO.get(key)
+    if hit is not None and hit[0] is obj:
+        if isinstance(hit[1], Inexact):
+            raise hit[1]
+        return hit[1]
+    out = []
+    try:
+        for k in range(N_XASSIGN):
+            env = lambda name, k=k: xvalue_for(name, k)  # noqa: E731
+            try:
+                out.append(("ok", eval_fn(obj, env, True)[0]))
+            except Skip as s:
+                out.append(("skip", str(s)))
+            except (ZeroDivisionError, OverflowError, MemoryError) as s:
+                out.append(("skip", type(s).__name__))
+    except Inexact as i:
+        _REF_MEMO[key] = (obj, i)
+        raise
+    except RecursionError:
+        i = Inexact("too deep")
+        _REF_MEMO[key] = (obj, i)
+        raise i
+    _REF_MEMO[key] = (obj, out)
+    return out
+
+
+def exact_verdict(in_fn, obj, out_fn, result):
+    """('same' | 'differ' | 'noverdict', detail): exact values of the input ``obj`` against the exact values of
+    what a translation made of it; 'noverdict' when either side is outside the exact class"""
+    try:
+        ref = exact_reference(in_fn, obj)
+    except Inexact:
+        return "noverdict", "input outside the exact class"
+    judged = 0
+    for k, r in enumerate(ref):
+        if r[0] != "ok":
+            continue
+        env = lambda name, k=k: xvalue_for(name, k)  # noqa: E731
+        try:
+            got = out_fn(result, env, False)[0]
+        except Inexact as i:
+            return "noverdict", f"result outside the exact class ({i})"
+        except RecursionError:
+            return "noverdict", "result too deep"
+        except Skip as s:
+            if str(s) == "division by zero":
+                return "differ", f"exact assignment {k}: expected {_xshow(r[1])}, result undefined ({s})"
+            continue
+        except (ZeroDivisionError, OverflowError, MemoryError):
+            continue
+        judged += 1
+        if got != r[1]:
+            names = sorted(_names_of(obj))[:6]
+            vals = {n: int(xvalue_for(n, k)) for n in names}
+            return "differ", (f"exact assignment {k} {vals}: expected {_xshow(r[1])}, got {_xshow(got)} "
+                              f"(difference {_xshow(got - r[1])})")
+    return ("same", f"{judged} exact assignments") if judged else ("noverdict", "no exact assignment with a value")
+
+
+def exact_defined(eval_fn, obj):
+    """the input has an exact value at some assignment"""
+    try:
+        return any(r[0] == "ok" for r in exact_reference(eval_fn, obj))
+    except Inexact:
+        return False
+
+
+def _xshow(q):
+    s = str(q)
+    return s if len(s) <= 90 else f"{s[:40]}...{s[-40:]} ({len(s)} characters)"
+
+
 def unsupported_nodes(e):
     """type names of the nodes outside the supported grammar (pre-order)"""
     import sympy as S
@@ -558,12 +805,17 @@ def _post_from_sympy(mon, call):
             ref = reference_values(ev_sympy, e)
         except Unknown:
             ref = []
-        if any(r[0] == "ok" for r in ref) and not _evaluated_form_unsupported(e):
+        if (any(r[0] == "ok" for r in ref) or exact_defined(ex_sympy, e)) and not _evaluated_form_unsupported(e):
             mon.violation("supported-refused", f"expression_from_sympy({srepr_short(e)}) raised {call.exc!r}")
         else:
             mon.out_of_domain(name)
         return
     t = call.result
+    xverdict, xdetail = exact_verdict(ex_sympy, e, ex_native, t)
+    if xverdict == "differ":
+        mon.violation("tree-value-differs-exactly", f"{srepr_short(e)} -> {str(t)[:500]}: {xdetail}")
+        return
+    mon.note(f"from_sympy:exact-{xverdict}")
     if native_unknown_names(t):
         if bad:
             mon.note("from_sympy:deferred-to-dialect")
@@ -590,7 +842,7 @@ def _post_from_sympy(mon, call):
     if verdict == "differ":
         kind = "unsupported-translated" if bad else "tree-value-differs"
         mon.violation(kind, f"{srepr_short(e)} -> {str(t)[:500]}: {detail}")
-    elif verdict == "same":
+    elif verdict == "same" or xverdict == "same":
         mon.ok(name)
         if bad:
             mon.note("from_sympy:unsupported-passed-same-value")
@@ -632,11 +884,16 @@ def _post_translate(mon, call):
         mon.out_of_domain(name)
         return
     if call.exc is not None:
-        if any(r[0] == "ok" for r in ref):
+        if any(r[0] == "ok" for r in ref) or exact_defined(ex_native, t):
             mon.violation("translate-raises", f"translate_expression({str(t)[:400]}) raised {call.exc!r}")
         else:
             mon.out_of_domain(name)
         return
+    xverdict, xdetail = exact_verdict(ex_native, t, ex_sympy, call.result)
+    if xverdict == "differ":
+        mon.violation("translation-value-differs-exactly", f"{str(t)[:400]} -> {srepr_short(call.result)}: {xdetail}")
+        return
+    mon.note(f"translate:exact-{xverdict}")
     try:
         verdict, detail = compare_values(ref, ev_sympy, call.result)
     except Unknown as u:
@@ -649,7 +906,7 @@ def _post_translate(mon, call):
         return
     if verdict == "differ":
         mon.violation("translation-value-differs", f"{str(t)[:400]} -> {srepr_short(call.result)}: {detail}")
-    elif verdict == "same":
+    elif verdict == "same" or xverdict == "same":
         mon.ok(name)
     else:
         mon.out_of_domain(name)
@@ -765,9 +1022,9 @@ def install(mon, reach):
                "addition_from_sympy_add", "multiplication_from_sympy_mul", "power_from_sympy_pow",
                "function_call_from_sympy_function", "expression_tuple_from_tuple_of_sympy_args",
                "is_multiplication_by_reciprocal", "is_addition_of_negation", "_negate_sympy_expr"):
-        reach.watch(getattr(SE, fn), fn)
+        reach.watch(getattr(SE, fn, None), fn)  # a handler that was renamed / merged is reported as missing
     for fn in ("translate_number", "translate_symbol", "translate_function_call", "translate_tuple"):
-        reach.watch(getattr(TR, fn), fn)
+        reach.watch(getattr(TR, fn, None), fn)
     reach.watch(SO.natural_key, "natural_key")
     reach.watch(SO.natural_key_revlex, "natural_key_revlex")
     reach.watch(getattr(SO, "_convert_string_to_int_if_possible", None), "_convert_string_to_int_if_possible")
@@ -803,7 +1060,7 @@ def rand_number(rng, allow_zero=True):
     if r < 0.4:
         v = rng.choice([-3, -2, -1, 1, 2, 3, 4, 5, 7, 10] + ([0] if allow_zero else []))
         if rng.random() < 0.04:
-            v = rng.choice([10**20, 2**64 + 1, -(10**18)])
+            v = rng.choice([10**20, 2**64 + 1, -(10**18), 2**53 + 1, 10**20 + 3, -(2**63) - 1, 3**40])
         return S.Integer(v)
     if r < 0.65:
         return S.Float(rng.choice([0.5, -2.25, 1e-3, 3.7, -0.1, 2.0, 1.0, -1.0, 1e10, -0.5, 1.5,
@@ -885,6 +1142,75 @@ def rand_tree(rng, depth, evaluate=True, symbols=True):
         if _magnitude(S, arg) > (1e3 if f is S.exp else 1e6):
             arg = S.Float(rng.uniform(-5, 5))
     return f(arg, **ev)
+
+
+# ---------------------------------------------------------------------------- integer expressions
+BIG_BITS = (31, 32, 53, 54, 63, 64, 65, 100, 128, 256, 1030)
+
+
+def rand_big_integer(rng):
+    """integers around and beyond the sizes at which another number type would stop being exact: int32 /
+    int64 / the 53-bit mantissa and the 1e308 range of a double"""
+    r = rng.random()
+    if r < 0.45:
+        n = 2 ** rng.choice(BIG_BITS) + rng.choice([-3, -1, 0, 1, 1, 3, 5])
+    elif r < 0.65:
+        n = 10 ** rng.choice([16, 17, 20, 30, 100, 400]) + rng.choice([1, 3, 7, -1])
+    elif r < 0.75:
+        n = 3 ** rng.choice([34, 40, 41, 81])
+    else:
+        bits = rng.choice([54, 57, 62, 64, 65, 70, 96, 128, 200])
+        n = rng.getrandbits(bits) | (1 << (bits - 1)) | 1
+    return -n if rng.random() < 0.35 else n
+
+
+def not_a_double(n):
+    try:
+        return int(float(n)) != n
+    except OverflowError:
+        return True
+
+
+def rand_integer_tree(rng, depth, evaluate=True):
+    """trees over symbols and integers with +, -, *, integer powers and division by symbolic denominators"""
+    import sympy as S
+
+    ev = {} if evaluate else {"evaluate": False}
+
+    def leaf():
+        r = rng.random()
+        if r < 0.4:
+            return rand_symbol(rng)
+        if r < 0.6:
+            return S.Integer(rng.choice([-3, -2, -1, 0, 1, 2, 3, 5, 7, 10, 1000]))
+        return S.Integer(rand_big_integer(rng))
+
+    def symbolic(x):
+        return x if getattr(x, "free_symbols", None) else S.Add(x, rand_symbol(rng), **ev)
+
+    if depth <= 0 or rng.random() < 0.1:
+        return leaf()
+    sub = lambda: rand_integer_tree(rng, depth - 1 - (rng.random() < 0.3), evaluate)  # noqa: E731
+    op = rng.choice(["add", "add", "add", "sub", "sub", "sub", "mul", "mul", "mul", "div", "div", "pow", "pow", "neg"])
+    if op == "add":
+        return S.Add(*[sub() for _ in range(rng.choice([2, 2, 3]))], **ev)
+    if op == "sub":
+        a, neg = sub(), S.Mul(S.Integer(-1), sub(), **ev)
+        return S.Add(a, neg, **ev) if rng.random() < 0.5 else S.Add(neg, a, **ev)
+    if op == "mul":
+        return S.Mul(*[sub() for _ in range(rng.choice([2, 2, 3]))], **ev)
+    if op == "div":
+        a, inv = sub(), S.Pow(symbolic(sub()), S.Integer(-1), **ev)
+        return S.Mul(a, inv, **ev) if rng.random() < 0.5 else S.Mul(inv, a, **ev)
+    if op == "pow":
+        base = sub()
+        x = rng.choice([2, 2, 3, 3, 4, -1, -2, 0, 1, None])
+        if x is None:
+            return S.Pow(base, rand_symbol(rng), **ev)
+        if x < 0:
+            base = symbolic(base)
+        return S.Pow(base, S.Integer(x), **ev)
+    return S.Mul(S.Integer(-1), sub(), **ev)
 
 
 def special_shapes():
@@ -1173,7 +1499,7 @@ def _judge_refusal(ctx, e, ex, stage, label, bad):
         ref = reference_values(ev_sympy, e)
     except Unknown:
         ref = []
-    if not any(r[0] == "ok" for r in ref):
+    if not any(r[0] == "ok" for r in ref) and not exact_defined(ex_sympy, e):
         ctx.mon.note("refused:undefined-everywhere")
         return
     later = _evaluated_form_unsupported(e)
@@ -1189,6 +1515,12 @@ def _judge_back(ctx, e, back, label, bad, check="roundtrip-value"):
     """``back`` is what the sympy dialect made of the tree of the sympy expression ``e``"""
     if not bad:
         ctx.check("supported-not-refused", True)
+        xverdict, xdetail = exact_verdict(ex_sympy, e, ex_sympy, back)
+        if xverdict != "noverdict":
+            ctx.check("exact-integer-value", xverdict == "same",
+                      lambda: f"{label}: {srepr_short(e)} came back as {srepr_short(back)}: {xdetail}")
+            if xverdict == "differ":
+                return back
     try:
         ref = reference_values(ev_sympy, e)
         verdict, detail = compare_values(ref, ev_sympy, back)
@@ -1420,6 +1752,48 @@ def _run_case(ctx):
             before = True
         return
 
+    if cls == "integers":
+        from orquestra.quantum.circuits.symbolic.sympy_expressions import SYMPY_DIALECT, expression_from_sympy
+        from orquestra.quantum.circuits.symbolic.translations import translate_tuple
+
+        depth = rng.randint(0, 4)
+        evaluate = rng.random() < 0.7
+        how = rng.choice(["plain"] * 13 + ["tuple"] * 4 + ["inside"] * 3)
+        n = 2 if how == "tuple" else 1
+        es = [_gen(rand_integer_tree, rng, depth, evaluate) for _ in range(n)]
+        if not any(isinstance(a, S.Integer) and abs(int(a)) > 2**31 for e in es for a in _preorder(e)):
+            # sympy folded the big integers away (x - x, n**0): put one back
+            k = S.Integer(rand_big_integer(rng))
+            es[0] = _gen(rng.choice([lambda: es[0] + k, lambda: k * rand_symbol(rng) + es[0], lambda: k - es[0]]))
+        if how == "inside":
+            # the integer expression below a node whose value is not exact: the nested conversions are judged
+            e0 = es[0]
+            es[0] = _gen(rng.choice([lambda: S.sin(e0), lambda: S.cos(e0), lambda: S.exp(-e0 ** 2), lambda: S.sqrt(e0),
+                                     lambda: S.Float(0.5) * e0 + S.Rational(1, 3), lambda: e0 ** S.Rational(1, 3)]))
+        ints = {int(a) for e in es for a in _preorder(e) if isinstance(a, S.Integer)}
+        inexact_as_double = sorted(i for i in ints if not_a_double(i))
+        bits = max([abs(i).bit_length() for i in ints] or [0])
+        ctx.describe(f"integers {how} d={depth} ev={evaluate} bits={bits} {[srepr_short(e, 400) for e in es]!r}"[:900],
+                     bool(inexact_as_double) and any(getattr(e, "free_symbols", None) for e in es))
+        ctx.mon.note(f"integers:bits>{max(b for b in (-1, 31, 53, 63, 64, 128, 1023) if bits > b)}")
+        if how != "tuple":
+            _roundtrip(ctx, es[0], f"integers {how}")
+            return
+        for e in es:
+            _declare(e)
+        try:
+            ts = expression_from_sympy(tuple(es))
+            back = translate_tuple(ts, SYMPY_DIALECT)
+        except Exception as ex:
+            _judge_refusal(ctx, S.Add(*es, evaluate=False), ex, "tuple of integer expressions", "integers tuple", [])
+            return
+        ok = isinstance(back, tuple) and len(back) == n
+        ctx.check("tuple-roundtrip", ok, lambda: f"{n} expressions -> {ts!r} -> {back!r}")
+        if ok:
+            for e, r in zip(es, back):
+                _judge_back(ctx, e, r, "integers tuple", [])
+        return
+
     if cls == "keys":
         from orquestra.quantum.circuits.symbolic import natural_key, natural_key_revlex
         EX = _LIB["EX"]
@@ -1440,10 +1814,16 @@ def _run_case(ctx):
                 return str(rng.randint(0, 10**6))
             if r < 0.9:
                 return "0" * rng.randint(1, 2) + str(rng.randint(0, 20))
-            return str(rng.choice([2**31, 2**63, 10**20, 10**20 + 1]))
+            return str(rng.choice([2**31, 2**63, 10**20, 10**20 + 1, 2**53, 2**64 + 1, 10**30]))
         names = []
         for _ in range(rng.randint(3, 9)):
-            names.append(prefix + "".join(seps[g] + mk_int() for g in range(groups)) + suffix)
+            parts = [mk_int() for g in range(groups)]
+            names.append(prefix + "".join(seps[g] + parts[g] for g in range(groups)) + suffix)
+            if any(int(q) >= 2**53 for q in parts):
+                # the neighbour of an integer that no double tells from it
+                g = rng.choice([g for g in range(groups) if int(parts[g]) >= 2**53])
+                parts[g] = str(int(parts[g]) + rng.choice([1, -1, 2]))
+                names.append(prefix + "".join(seps[g] + parts[g] for g in range(groups)) + suffix)
         names = list(dict.fromkeys(names))
         if rng.random() < 0.3:
             names += [rng.choice(["alpha", "beta", "x", "beta_x", "10", "z9z"])]
